@@ -136,3 +136,19 @@ def say(*a):
 def die_machinery(msg):
     say(f"MACHINERY-FAILURE: {msg}")
     sys.exit(2)
+
+
+def arm_exit_if_threads_are_stuck(grace=60.0):
+    """For pool workers that handle ONE task (maxtasksperchild=1), called at the end of the task: a worker process joins its
+    non-daemon threads before it exits, so a thread that a broken tree left blocked (or spinning) for good would keep the
+    process alive for ever, and the pool - which replaces a worker only once it is gone - would starve.  If such threads
+    exist, the process is ended `grace` seconds later (the result of the task has long been sent by then)."""
+    import threading
+
+    stuck = [t for t in threading.enumerate() if t is not threading.main_thread() and t.is_alive() and not t.daemon]
+    if not stuck:
+        return False
+    timer = threading.Timer(grace, os._exit, (0,))
+    timer.daemon = True
+    timer.start()
+    return True
